@@ -1,0 +1,54 @@
+//go:build verif
+
+// Contracts for the verif build tag: comment-only, read by /verif/engine (govc).
+package middleware
+
+//@ # ---- C17: which requests count as resolver-internal (exempt from client policy)
+//@ uninterp remoteAddrOf(t Transport) net.Addr
+//@ uninterp ifaceInternal(t Transport) bool
+//@ func (Transport).RemoteAddr
+//@   trusted
+//@   params t
+//@   modifies nothing
+//@   ensures result == remoteAddrOf(t)
+//@ func (interface{Internal() bool}).Internal
+//@   trusted
+//@   params t
+//@   modifies nothing
+//@   ensures result == ifaceInternal(t)
+//@ func (interface{Proto() string}).Proto
+//@   trusted
+//@   params t
+//@   modifies nothing
+//@
+//@ # the sentinel: source 127.0.0.255 AND port 0, on a UDP or TCP address
+//@ pred sentinelAddr(rw Transport) := (dyntype(remoteAddrOf(rw), *net.UDPAddr) && as(remoteAddrOf(rw), *net.UDPAddr).Port == 0 && ipEqual(as(remoteAddrOf(rw), *net.UDPAddr).IP, internalIP))
+//@     || (dyntype(remoteAddrOf(rw), *net.TCPAddr) && as(remoteAddrOf(rw), *net.TCPAddr).Port == 0 && ipEqual(as(remoteAddrOf(rw), *net.TCPAddr).IP, internalIP))
+//@ pred addrsWF(rw Transport) := (dyntype(remoteAddrOf(rw), *net.UDPAddr) ==> as(remoteAddrOf(rw), *net.UDPAddr) != nil) && (dyntype(remoteAddrOf(rw), *net.TCPAddr) ==> as(remoteAddrOf(rw), *net.TCPAddr) != nil)
+//@
+//@ func (*responseWriter).Reset
+//@   requires w != nil && addrsWF(rw)
+//@   ensures w.internal ==> sentinelAddr(rw) || ifaceInternal(rw)
+//@   ensures sentinelAddr(rw) ==> w.internal
+//@   ensures w.size == -1 && w.msg == nil && w.wire == nil && !w.directPack && w.Transport == rw
+//@
+//@ uninterp wInternal(w ResponseWriter) bool
+//@ uninterp wRemoteIP(w ResponseWriter) net.IP
+//@ func (ResponseWriter).Internal
+//@   trusted
+//@   params w
+//@   modifies nothing
+//@   ensures result == wInternal(w)
+//@ func (ResponseWriter).RemoteIP
+//@   trusted
+//@   params w
+//@   modifies nothing
+//@   ensures result == wRemoteIP(w)
+//@ func (*responseWriter).Internal
+//@   requires w != nil
+//@   modifies nothing
+//@   ensures result == w.internal
+//@ func (*Chain).Cancel
+//@   requires ch != nil
+//@   modifies ch.count
+//@   ensures ch.count == 0
